@@ -1,0 +1,96 @@
+//go:build verif
+
+// Contracts for the deductive checker in /verif (comment-only; compiled only with -tags verif).
+// C03: Abaco ingest -- gap filling gives consecutive sequence numbers, demultiplexing is exact,
+// all channels of a block have equal length, block frame numbers are contiguous.
+//
+// Ghost state of an AbacoGroup: nleft = number of packets at the head of the queue that an
+// earlier fillMissingPackets call already examined (they are still queued because another group
+// lagged).  32-bit sequence-number wrap-around is outside (requires SeqSmall).
+
+package dastard
+
+//@ ghost field AbacoGroup.nleft mathint
+
+//@ pred seqnum(p *packets.Packet) := p.sequenceNumber
+//@ ufunc pframes(p *packets.Packet) int
+//@ ufunc plength(p *packets.Packet) int
+//@ ufunc pretendof(p *packets.Packet) int
+//@ extern func (*github.com/usnistgov/dastard/packets.Packet).Frames
+//@   pure
+//@   ensures result == pframes(p)
+//@ extern func (*github.com/usnistgov/dastard/packets.Packet).Length
+//@   pure
+//@   ensures result == plength(p)
+// A pretend (filler) packet: fresh, carries the requested sequence number, and has as many frames as the packet it was copied from.
+//@ extern func (*github.com/usnistgov/dastard/packets.Packet).MakePretendPacket
+//@   requires nchan > 0
+//@   ensures result != nil && fresh(result) && seqnum(result) == seqnum && pframes(result) == pframes(p) && plength(result) == plength(p) && pretendof(result) == p
+
+// QOK: queue entries are real packets with small sequence numbers.
+//@ pred QOK(g *AbacoGroup) := allocated(g.queue) && (forall p int :: {at(g.queue, p)} g.queue.off <= p && p < g.queue.off + len(g.queue) ==> at(g.queue, p) != nil && allocated(at(g.queue, p)) && 0 <= seqnum(at(g.queue, p)) && seqnum(at(g.queue, p)) < 4294967295)
+// QInv: the first nleft packets were examined by an earlier call: they are consecutive and end at lastSN;
+// the packets behind them arrived since, in sequence order, all later than lastSN.
+//@ pred QInv(g *AbacoGroup) := 0 <= g.nleft && g.nleft <= len(g.queue) && 0 <= g.lastSN && g.lastSN < 4294967295 && g.nchan > 0
+//@     && (forall p int :: {at(g.queue, p)} g.queue.off <= p && p < g.queue.off + len(g.queue) - 1 ==> seqnum(at(g.queue, p)) < seqnum(at(g.queue, p + 1)))
+//@     && (forall p int :: {at(g.queue, p)} g.queue.off <= p && p < g.queue.off + g.nleft ==> seqnum(at(g.queue, p)) == g.lastSN - (g.queue.off + g.nleft - 1 - p))
+//@     && (forall p int :: {at(g.queue, p)} g.queue.off + g.nleft <= p && p < g.queue.off + len(g.queue) ==> seqnum(at(g.queue, p)) > g.lastSN)
+// Consecutive: the whole queue has consecutive sequence numbers.
+//@ pred Consecutive(g *AbacoGroup) := forall p int :: {at(g.queue, p)} g.queue.off <= p && p < g.queue.off + len(g.queue) - 1 ==> seqnum(at(g.queue, p + 1)) == seqnum(at(g.queue, p)) + 1
+
+//@ func (*AbacoGroup).firstSeqNum
+//@   props C03
+//@   requires QOK(group)
+//@   ensures (len(group.queue) == 0 ==> result1 != nil) && (len(group.queue) > 0 ==> result1 == nil && result0 == (seqnum(at(group.queue, group.queue.off)) - group.seqnumsync) % 4294967296)
+//@   modifies nothing
+
+//@ func (*AbacoGroup).trimPacketsBefore
+//@   props C03
+//@   requires QOK(group) && len(group.queue) > 0
+//@   ensures suffix: group.queue.arr == old(group.queue.arr) && group.queue.off >= old(group.queue.off) && group.queue.off + len(group.queue) == old(group.queue.off + len(group.queue))
+//@   ensures trimmed: len(group.queue) > 0 ==> seqnum(at(group.queue, group.queue.off)) >= (firstSn + group.seqnumsync) % 4294967296
+//@   ensures dropped: forall p int :: {at(group.queue, p)} old(group.queue.off) <= p && p < group.queue.off ==> seqnum(at(group.queue, p)) < (firstSn + group.seqnumsync) % 4294967296
+//@   modifies group.queue
+//@   loop 1
+//@     invariant QOK(group) && len(group.queue) > 0 && firstSn == (old(firstSn) + group.seqnumsync) % 4294967296
+//@     invariant suffix: group.queue.arr == old(group.queue.arr) && group.queue.off >= old(group.queue.off) && group.queue.off + len(group.queue) == old(group.queue.off + len(group.queue))
+//@     invariant dropped: forall p int :: {at(group.queue, p)} old(group.queue.off) <= p && p < group.queue.off ==> seqnum(at(group.queue, p)) < firstSn
+
+// QFirst: the sequence number the filled queue starts with.
+//@ pred QFirst(g *AbacoGroup) := ite(g.nleft > 0, g.lastSN - (g.nleft - 1), g.lastSN + 1)
+
+// fillMissingPackets: afterwards the queue holds consecutive sequence numbers starting where it
+// began (or right after lastSN when nothing was left over): the packet at position j has sequence
+// number first+j; every original packet is still there, at the position its sequence number
+// dictates; lastSN is the last sequence number; packetsAdded is the growth of the queue; and
+// everything in the queue has now been examined.
+//@ func (*AbacoGroup).fillMissingPackets
+//@   props C03
+//@   requires QOK(group) && QInv(group)
+//@   ensures ok: QOK(group) && QInv(group) && group.nleft == len(group.queue)
+//@   ensures positional: forall p int :: {at(group.queue, p)} group.queue.off <= p && p < group.queue.off + len(group.queue) ==> seqnum(at(group.queue, p)) == old(QFirst(group)) + p - group.queue.off
+//@   ensures last: old(len(group.queue)) > 0 ==> len(group.queue) > 0 && group.lastSN == old(seqnum(at(group.queue, group.queue.off + len(group.queue) - 1))) && group.lastSN == old(QFirst(group)) + len(group.queue) - 1
+//@   ensures kept: forall k int :: {oldat(old(group.queue), k)} old(group.queue.off) <= k && k < old(group.queue.off + len(group.queue)) ==>
+//@        at(group.queue, group.queue.off + seqnum(oldat(old(group.queue), k)) - old(QFirst(group))) == oldat(old(group.queue), k)
+//@   ensures count: packetsAdded == len(group.queue) - old(len(group.queue)) && packetsAdded >= 0
+//@   ensures empty: old(len(group.queue)) == 0 ==> packetsAdded == 0 && framesAdded == 0 && unchanged(group.lastSN, group.queue)
+//@   modifies group.queue, group.lastSN, group.nleft
+//@   ghost exit: group.nleft := len(group.queue)
+//@   loop 1
+//@     invariant -1 <= rangeindex && rangeindex <= len(group.queue) - 1 && QOK(group) && QInv(group) && unchanged(group.queue, group.lastSN, group.nleft) && len(group.queue) > 0
+//@     invariant newq: fresh(newq) && allocated(newq) && len(newq) == rangeindex + 1 + packetsAdded && packetsAdded >= 0
+//@     invariant qok: forall p int :: {at(newq, p)} newq.off <= p && p < newq.off + len(newq) ==> at(newq, p) != nil && allocated(at(newq, p))
+//@     invariant pos: forall p int :: {at(newq, p)} newq.off <= p && p < newq.off + len(newq) ==> seqnum(at(newq, p)) == QFirst(group) + p - newq.off
+//@     invariant expect: (rangeindex + 1 <= group.nleft ==> snexpect == group.lastSN + 1 && packetsAdded == 0) && (rangeindex + 1 >= group.nleft ==> snexpect == QFirst(group) + len(newq)) && snexpect <= 4294967295
+//@     invariant ends: rangeindex >= 0 && rangeindex + 1 >= group.nleft ==> snexpect == seqnum(at(group.queue, group.queue.off + rangeindex)) + 1
+//@     invariant kept: forall k int :: {at(group.queue, k)} group.queue.off <= k && k <= group.queue.off + rangeindex ==> QFirst(group) <= seqnum(at(group.queue, k)) && seqnum(at(group.queue, k)) - QFirst(group) < len(newq) && at(newq, newq.off + seqnum(at(group.queue, k)) - QFirst(group)) == at(group.queue, k)
+//@     invariant same: packetsAdded == 0 ==> (forall k int :: {at(group.queue, k)} group.queue.off <= k && k < group.queue.off + len(newq) ==> at(group.queue, k) == at(newq, newq.off + k - group.queue.off))
+//@   loop 2
+//@     invariant 0 <= rangeindex && rangeindex <= len(group.queue) - 1 && QOK(group) && QInv(group) && unchanged(group.queue, group.lastSN, group.nleft) && len(group.queue) > 0
+//@     invariant cur: p == at(group.queue, group.queue.off + rangeindex) && sn == seqnum(p) && rangeindex >= group.nleft && snexpect <= sn
+//@     invariant newq: fresh(newq) && allocated(newq) && len(newq) == rangeindex + packetsAdded && packetsAdded >= 0
+//@     invariant qok: forall p int :: {at(newq, p)} newq.off <= p && p < newq.off + len(newq) ==> at(newq, p) != nil && allocated(at(newq, p))
+//@     invariant pos: forall p int :: {at(newq, p)} newq.off <= p && p < newq.off + len(newq) ==> seqnum(at(newq, p)) == QFirst(group) + p - newq.off
+//@     invariant expect: snexpect == QFirst(group) + len(newq)
+//@     invariant kept: forall k int :: {at(group.queue, k)} group.queue.off <= k && k < group.queue.off + rangeindex ==> QFirst(group) <= seqnum(at(group.queue, k)) && seqnum(at(group.queue, k)) - QFirst(group) < len(newq) && at(newq, newq.off + seqnum(at(group.queue, k)) - QFirst(group)) == at(group.queue, k)
+//@     invariant same: packetsAdded == 0 ==> (forall k int :: {at(group.queue, k)} group.queue.off <= k && k < group.queue.off + len(newq) ==> at(group.queue, k) == at(newq, newq.off + k - group.queue.off))
